@@ -262,7 +262,10 @@ def oracle_model(getter, rng, tier_quick, notes):
     # F(t | h) = 1 - F_S|Hs(s(h, t) | h); consecutive givens that are close but different each get their own law
     if getter.startswith("fitted:") or not tier_quick:
         d1 = base.distributions[1]
-        gl = [0.0100, 0.0104, 0.0108, 0.0112, 0.0116, 0.0120, 0.0140, 0.0144, 0.05, 0.0507, 0.1, 0.1004, 1.0, 1.0008, 3.0, 3.0005, 8.0]
+        # ... from tiny to extreme conditioning values (Hs = 11.7 m is the top of the 50-year contour of the fitted models,
+        # 14 m has exceedance probability 2e-7: the JOINT density is small there although the conditional one is not)
+        gl = [0.0100, 0.0104, 0.0108, 0.0112, 0.0116, 0.0120, 0.0140, 0.0144, 0.05, 0.0507, 0.1, 0.1004, 1.0, 1.0008, 3.0, 3.0005, 8.0,
+              10.0, 11.0, 11.7, 12.0, 13.0, 14.0]
         for pq in (0.5, 0.95):
             pp_ = np.full(len(gl), pq)
             with warnings.catch_warnings():
@@ -273,11 +276,14 @@ def oracle_model(getter, rng, tier_quick, notes):
             for h, xv in zip(gl, xq):
                 s_cap = float(np.asarray(t(np.array([[h, 100.0]])))[0, 1])
                 beyond = float(np.atleast_1d(d1.cdf(np.array([s_cap]), given=np.array([h])))[0])
-                if beyond > 1e-4 or not (xv > 0):
+                if beyond > 1e-4 or not np.isfinite(xv):
                     notes["icdf_unjudged"] = notes.get("icdf_unjudged", 0) + 1
                     continue
-                s_x = float(np.asarray(t(np.array([[h, xv]])))[0, 1])
-                Fx = 1.0 - float(np.atleast_1d(d1.cdf(np.array([s_x]), given=np.array([h])))[0])
+                if xv > 0:
+                    s_x = float(np.asarray(t(np.array([[h, xv]])))[0, 1])
+                    Fx = 1.0 - float(np.atleast_1d(d1.cdf(np.array([s_x]), given=np.array([h])))[0])
+                else:
+                    Fx = 0.0   # (a quantile of 0: the sampler gave up and conditional_icdf put 0 there)
                 notes.setdefault("icdf_prob_dev_max", 0.0)
                 notes["icdf_prob_dev_max"] = max(notes["icdf_prob_dev_max"], round(abs(Fx - pq), 5))
                 if abs(Fx - pq) > e_q + beyond + 1e-6:
